@@ -92,7 +92,8 @@ class Builder:
         n = self.n
         F = tt.full(n)
         nv = len(self.bdd.vars)
-        order = [self.idx[self.bdd.var_at_level(l)] for l in range(nv)]
+        # declared variables outside `names` are never depended on
+        order = [self.idx.get(self.bdd.var_at_level(l)) for l in range(nv)]
         memo = self.memo
 
         def rec(t, level):
@@ -105,6 +106,8 @@ class Builder:
                 return r
             for l in range(level, nv):
                 j = order[l]
+                if j is None:
+                    continue
                 c0 = tt.cof(t, n, j, 0)
                 c1 = tt.cof(t, n, j, 1)
                 if c0 != c1:
